@@ -21,7 +21,8 @@ import time
 import vlib
 
 UNIT = 512
-MISMATCH = ("wrongdig", "sizeplus", "sizeminus")
+MISMATCH = ("wrongdig", "sizeplus", "sizeminus", "prefix")
+WRONGSIZE = ("sizeplus", "sizeminus", "sizeonlyplus", "sizeonlyminus", "prefix")
 
 
 def load_traces(fn):
@@ -41,7 +42,7 @@ def to_drv(s, sid, rng):
         "chunk": cf["chunk"], "defch": 0, "blobmax": cf["bmax"], "defmax": 0, "min": cf["min"],
         "enforce": int(bool(cf["enforce"])), "seek": int(bool(cf["seek"])), "piece": 0,
         "decl": cf["decl"], "alg": rng.choice(["sha256", "sha512"]), "loc": cf["loc"],
-        "exists": cf["exists"], "koff": 0, "script": [],
+        "exists": cf["exists"], "koff": 0, "sdelta": 0, "script": [],
     }
     if cf["len"] == 0 and cf["decl"] in ("right", "digonly"):
         scn["alg"] = "sha256"               # BlobPut knows the empty blob only by its sha256 digest (zeroDig)
@@ -101,15 +102,18 @@ def same_requests(exp, obs):
 def variants(base, rng, n):
     """byte level variations of TLC scenarios that the unit granular model cannot express: lengths
     that are not a multiple of the block, resume offsets inside a block, short reads of the source,
-    one byte units.  The script is followed as far as it fits (adapted replay)."""
+    one byte units, wrong declared sizes off the block boundaries.  The script is followed as far as it fits (adapted replay)."""
     out = []
     pool = [b for b in base if b["dest"] == "reg"]
     oci = [b for b in base if b["dest"] == "ocidir"]
     if not pool:
         return out
+    wsize = [b for b in base if b["decl"] in WRONGSIZE]
     for i in range(n):
-        kind = ("tail", "koff", "piece", "unit1", "tail+koff")[i % 5]
-        if oci and kind in ("tail", "piece") and i % 4 == 0:
+        kind = ("tail", "koff", "piece", "unit1", "tail+koff", "sdelta")[i % 6]
+        if kind == "sdelta" and wsize:
+            b = copy.deepcopy(wsize[rng.randrange(len(wsize))])
+        elif oci and kind in ("tail", "piece") and i % 4 == 0:
             b = copy.deepcopy(oci[rng.randrange(len(oci))])
         else:
             b = copy.deepcopy(pool[rng.randrange(len(pool))])
@@ -123,6 +127,8 @@ def variants(base, rng, n):
             b["piece"] = rng.choice([1, 100, 700])
         if kind == "unit1":
             b["unit"] = 1
+        if kind == "sdelta":                 # declared size next to / away from the block boundary
+            b["sdelta"] = rng.choice([1, -1, 100, -100])
         b["variant"] = kind
         out.append(b)
     return out
@@ -182,6 +188,8 @@ def run(ctx):
     tlc_scns = []
     for cfg, label in (("C05_gen_core.cfg", "all partial acceptances, small space"),
                        ("C05_gen_decl.cfg", "descriptors x mount/refuse/fall-back, both destinations"),
+                       ("C05_gen_size.cfg", "declared size above / below the length, on and off chunk boundaries, "
+                                            "no digest / digest of the stream / digest of the prefix"),
                        ("C05_gen_s13.cfg", "enforced minimum chunk length + partial acceptance (S13, safety only)")):
         g = ctx.tlc_scenarios("BlobPutGen", cfg, workers=8, label="generator " + label)
         got = sorted(g["scenarios"], key=lambda x: json.dumps(x, sort_keys=True))
@@ -213,7 +221,7 @@ def run(ctx):
         drv.append(d)
         model[sid] = s
     exact_ids = set(model)
-    var = variants([d for d in drv if d["id"].startswith(("gen_core", "gen_sim"))], rng, 3000 if thorough else 400)
+    var = variants([d for d in drv if d["id"].startswith(("gen_core", "gen_sim", "gen_size"))], rng, 3000 if thorough else 400)
     drv += var
     for b in var:
         if b["variant"] == "unit1":          # only the scale changes: the model's prediction still applies
